@@ -421,6 +421,16 @@ func (d *domAn) guardRefuted(x *domFn, p *ssa.BasicBlock, succ int) (bool, strin
 		}
 		return false, "branch on the result of " + call.Call.Value.String()
 	}
+	if ex, ok := cond.(*ssa.Extract); ok && ex.Index == 1 {
+		if ta, ok := ex.Tuple.(*ssa.TypeAssert); ok && ta.CommaOk {
+			if implied, why := d.c.assertImplied(f, ta); implied {
+				if !taken {
+					return true, "the checked type assertion always succeeds: " + why
+				}
+				return false, "the checked type assertion always succeeds"
+			}
+		}
+	}
 	bo, ok := cond.(*ssa.BinOp)
 	if !ok {
 		return false, "branch on " + cond.String()
@@ -445,6 +455,11 @@ func (d *domAn) guardRefuted(x *domFn, p *ssa.BasicBlock, succ int) (bool, strin
 					return true, p + " is present on the domain"
 				}
 				return false, p + " may be nil on the domain"
+			}
+			if ph, ok := v.(*ssa.Phi); ok {
+				if ok2, why := d.loopPhiNonNil(x, ph); ok2 {
+					return true, why
+				}
 			}
 			src := v
 			if s := storedInto(fn, v); s != nil {
@@ -924,8 +939,44 @@ func (c *Ctx) protectTotality(r *Report, prefix string) {
 		"method:Encrypt":       "fails only when the random source fails (C10 IV / padding rules)",
 	}
 	specs := map[*ssa.Function]*domSpec{}
+	sendRel := func(f *FA) []Fact {
+		// what the shape rules of C06 establish on the send side: the SK body handed to the final Encode is
+		// IV | >= 1 block | L placeholder octets, and the encoded message holds header + SK header + that
+		var out []Fact
+		var cs []LF
+		for _, b := range f.Fn.Blocks {
+			for _, ins := range b.Instrs {
+				if call, ok := ins.(*ssa.Call); ok && call.Call.IsInvoke() && call.Call.Method.Name() == "GetOutputLength" {
+					cs = append(cs, f.LFOf(call))
+				}
+			}
+		}
+		for _, b := range f.Fn.Blocks {
+			for _, ins := range b.Instrs {
+				v, ok := ins.(ssa.Value)
+				if !ok {
+					continue
+				}
+				if _, fld, ok := fieldLoad(v); ok && fld == "EncryptedData" {
+					for _, k := range cs {
+						out = append(out, Fact{L: f.SliceLen(v).add(k, -1).add(konst(32), -1)})
+					}
+				}
+				if ex, ok := v.(*ssa.Extract); ok && ex.Index == 0 {
+					if call, ok := ex.Tuple.(*ssa.Call); ok && !call.Call.IsInvoke() {
+						if cal := call.Call.StaticCallee(); cal != nil && cal.Name() == "Encode" && strings.HasSuffix(cal.String(), "IKEMessage).Encode") {
+							for _, k := range cs {
+								out = append(out, Fact{L: f.SliceLen(v).add(k, -1).add(konst(64), -1)})
+							}
+						}
+					}
+				}
+			}
+		}
+		return out
+	}
 	if enc != nil {
-		specs[enc] = &domSpec{ExactLenParam: -1, NonNil: nonNil("ikeMsg", "ikesaKey"), EnvErr: codec}
+		specs[enc] = &domSpec{ExactLenParam: -1, NonNil: nonNil("ikeMsg", "ikesaKey"), EnvErr: codec, Rel: sendRel}
 	}
 	if ee != nil {
 		specs[ee] = &domSpec{ExactLenParam: -1, NonNil: nonNil("ikeMsg", "ikesaKey"), EnvErr: codec}
@@ -966,7 +1017,7 @@ func (c *Ctx) protectTotality(r *Report, prefix string) {
 	}
 	if dec != nil {
 		specs[dec] = &domSpec{ExactLenParam: -1, NonNil: nonNil("ikeMsg", "ikesaKey", "msg"), EnvErr: codec,
-			CallVals: map[string][]int64{"Type": {46}}, Rel: recvRel, LenDom: map[string][2]int64{"msg": {64, INF}}}
+			CallVals: map[string][]int64{"Type": {46}}, Rel: recvRel, LenDom: map[string][2]int64{"msg": {64, INF}, "ikeMsg.Payloads": {1, INF}}}
 	}
 	if dd != nil {
 		specs[dd] = &domSpec{ExactLenParam: -1, NonNil: nonNil("ikesaKey", "msg"), EnvErr: codec, LenDom: map[string][2]int64{"msg": {64, INF}}}
@@ -1021,4 +1072,127 @@ func (c *Ctx) setterTotality(r *Report, prefix string) {
 	c.domainTotalRoots(r, prefix+"aka.setter-accepts-domain",
 		"the attribute setter accepts every value size of the domain: for AT_RAND/AT_AUTN/AT_MAC with 16 octets, AT_KDF with 2, AT_RES with 4..16, AT_KDF_INPUT with 0..300 and AT_CHECKCODE with 0, 20 or 32 octets no error exit of setAttr is reachable (the case dispatch and every size test are refuted by linear arithmetic over the attribute type and len(value))",
 		9, map[*ssa.Function]*domSpec{}, roots)
+}
+
+
+// loopPhiNonNil: ph is a φ at a loop header whose entry value is nil and whose loop-carried values are
+// objects (allocations, successful type assertions, interface wrappers). After the loop it is nil only if
+// the loop was left before its first iteration; that is refuted when the exit condition, with every header
+// φ replaced by its entry value, contradicts the domain (e.g. ranging over a list the domain says is
+// non-empty).
+func (d *domAn) loopPhiNonNil(x *domFn, ph *ssa.Phi) (bool, string) {
+	f := x.f
+	h := ph.Block()
+	var li *loopInfo
+	for _, l := range naturalLoops(f.Fn) {
+		if l.header == h {
+			li = l
+		}
+	}
+	if li == nil {
+		return false, ""
+	}
+	isBack := func(p *ssa.BasicBlock) bool {
+		for _, b := range li.backs {
+			if b == p {
+				return true
+			}
+		}
+		return false
+	}
+	for i, e := range ph.Edges {
+		if isBack(h.Preds[i]) {
+			if !carriesObject(e, ph, 0) {
+				return false, ""
+			}
+		} else if !isNilConst(e) {
+			return false, ""
+		}
+	}
+	iff, ok := h.Instrs[len(h.Instrs)-1].(*ssa.If)
+	if !ok {
+		return false, ""
+	}
+	exit := -1
+	for i, s := range h.Succs {
+		if !li.body[s] {
+			exit = i
+		}
+	}
+	if exit < 0 {
+		return false, ""
+	}
+	var gs []Fact
+	f.condFacts(iff.Cond, exit == 0, &gs)
+	if len(gs) == 0 {
+		return false, ""
+	}
+	// substitute the header's integer φ-nodes by their entry values
+	sub := map[int]LF{}
+	for _, ins := range h.Instrs {
+		p2, ok := ins.(*ssa.Phi)
+		if !ok {
+			break
+		}
+		if _, _, isInt := f.typeRange(p2.Type()); !isInt {
+			continue
+		}
+		l := f.LFOf(p2)
+		if len(l.T) != 1 || l.C != 0 {
+			continue
+		}
+		for a, co := range l.T {
+			if co != 1 {
+				continue
+			}
+			for i, e := range p2.Edges {
+				if !isBack(h.Preds[i]) {
+					sub[a] = f.LFOf(e)
+				}
+			}
+		}
+	}
+	all := append(append([]Fact{}, x.facts...), f.FactsAt(h)...)
+	for _, g := range gs {
+		l := LF{C: g.L.C, T: map[int]int64{}}
+		for a, co := range g.L.T {
+			if s, ok := sub[a]; ok {
+				l = l.add(s, co)
+			} else {
+				l = l.add(LF{T: map[int]int64{a: 1}}, co)
+			}
+		}
+		if factRefuted(f, Fact{L: l, NE: g.NE}, all) {
+			return true, "the loop that assigns it runs at least once on the domain and every iteration assigns an object"
+		}
+	}
+	return false, ""
+}
+
+// carriesObject: v is an object on every path (allocation, interface wrapper, successful type assertion),
+// or the φ itself.
+func carriesObject(v ssa.Value, self *ssa.Phi, depth int) bool {
+	if v == ssa.Value(self) {
+		return true
+	}
+	if depth > 4 {
+		return false
+	}
+	switch e := v.(type) {
+	case *ssa.Alloc, *ssa.MakeInterface, *ssa.TypeAssert:
+		return true
+	case *ssa.Extract:
+		if ta, ok := e.Tuple.(*ssa.TypeAssert); ok && e.Index == 0 {
+			_ = ta
+			return true
+		}
+	case *ssa.Phi:
+		for _, ed := range e.Edges {
+			if !carriesObject(ed, self, depth+1) {
+				return false
+			}
+		}
+		return true
+	}
+	return false
 }
